@@ -20,6 +20,7 @@ func c08Trials(c *check.Ctx) []e4.Trial {
 	offs = append(offs, e4.Structural(ctx, !c.Quick())...)
 	offs = append(offs, e4.ByteLevel(r, c.Pick(12, 150))...)
 	offs = append(offs, e4.Bursts()...)
+	offs = append(offs, e4.Closes(ctx)...)
 	var trials []e4.Trial
 	for _, o := range offs {
 		if f := os.Getenv("VERIF_E4_FILTER"); f != "" && !strings.Contains(o.Name, f) {
@@ -27,6 +28,11 @@ func c08Trials(c *check.Ctx) []e4.Trial {
 		}
 		for _, ph := range []string{"joined", "unjoined"} {
 			trials = append(trials, e4.Trial{Off: o, Phase: ph})
+		}
+		// a third life phase for the offences that involve deferred updates or
+		// end the connection: the offender has switched sessions before
+		if strings.HasPrefix(o.Name, "pose/") || strings.HasPrefix(o.Name, "comp_upd/") || strings.HasPrefix(o.Name, "burst/") || strings.HasPrefix(o.Name, "bytes/") || strings.HasPrefix(o.Name, "ws/") || strings.HasPrefix(o.Name, "quad/") || strings.HasPrefix(o.Name, "close/") {
+			trials = append(trials, e4.Trial{Off: o, Phase: "switched"})
 		}
 	}
 	return trials
@@ -56,7 +62,7 @@ func partFaults(c *check.Ctx, a *acc) {
 	for i := 0; i < len(res.Names) && len(samples) < 6; i += 1 + len(res.Names)/6 {
 		samples = append(samples, map[string]any{"engine": "E4 fault trial", "trial -> offender fate": res.Names[i]})
 	}
-	a.add(res.Trials, res.ReachedHandle, "E4: every offence of the catalogue (structural messages of core and modules with optional fields absent / boundary scalars, byte-level frames, malformed WebSocket framing, bursts) x life phase (unjoined, joined with entities and attachments) against a child SUT with a witness in the same and in another session; a trial is distinct by offence and phase and non-trivial when the input reaches handler code (is not rejected at the frame level) and all liveness oracles were evaluated", samples...)
+	a.add(res.Trials, res.ReachedHandle, "E4: every offence of the catalogue (structural messages of core and modules with optional fields absent / boundary scalars, byte-level frames, malformed WebSocket framing, bursts) x life phase (unjoined, joined with entities and attachments, joined after a switch from another live session) against a child SUT with a witness in the same and in another session; a trial is distinct by offence and phase and non-trivial when the input reaches handler code (is not rejected at the frame level) and all liveness oracles were evaluated", samples...)
 }
 
 // partBursts: bursts of failing requests written without reading. A wedge
@@ -159,4 +165,48 @@ func init() {
 		partStalls(c, a)
 		return a.finish(c)
 	}
+}
+
+// partLagging: a member that reads slowly is still owed every relay (C02).
+func partLagging(c *check.Ctx, a *acc) {
+	bin, err := c.WS.Build("lab", "plain")
+	if err != nil {
+		c.Inconc("build failed: " + err.Error())
+		return
+	}
+	type sc struct {
+		n, size int
+		pause   time.Duration
+	}
+	scs := []sc{{2500, 8000, 500 * time.Millisecond}, {6000, 2000, 300 * time.Millisecond}, {1200, 10240, 800 * time.Millisecond}}
+	if !c.Quick() {
+		scs = append(scs, sc{20000, 1000, time.Second}, sc{8000, 8000, 1500 * time.Millisecond}, sc{3000, 200, 200 * time.Millisecond})
+	}
+	var mu sync.Mutex
+	done, nontrivial := 0, 0
+	var samples []any
+	parallel(len(scs), 3, func(i int) {
+		p, err := c.WS.StartLab(bin, sut.LabOpts{Name: "lag"})
+		if err != nil {
+			c.Inconc(err.Error())
+			return
+		}
+		defer p.Kill()
+		out := e4.LagTrial(p, scs[i].n, scs[i].size, scs[i].pause)
+		mu.Lock()
+		defer mu.Unlock()
+		done++
+		if out.Inconclusive != "" {
+			c.Inconc(out.Inconclusive)
+		}
+		for _, f := range out.Findings {
+			c.Report(f)
+		}
+		if out.Sent > 600 {
+			nontrivial++
+		}
+		samples = append(samples, map[string]any{"engine": "E4 lagging member", "trial": out.Desc, "received": out.Received})
+	})
+	c.Coverage["lagging_member_trials"] = done
+	a.add(done, nontrivial, "lagging member: one member stops reading for 0.3-1.5 s while another relays thousands of numbered custom messages (more than socket buffers + the 512-entry send queue hold), then resumes; it and a steadily reading member must each receive every message exactly once, in order; non-trivial when more than 600 messages were relayed", samples...)
 }
